@@ -407,6 +407,19 @@ func consGrid(c *Ctx) []consIn {
 		add(consIn{Fam: "Graph6DecodeOf", G: gj})
 		add(consIn{Fam: "Sparse6DecodeOf", G: gj})
 	}
+	// decoders and copies on larger graphs (index arithmetic that depends on the size)
+	for _, n := range []int{16, 17, 18, 19, 33, 64, 65, 100, 200, 255} {
+		for _, p := range []float64{0.08, 0.6} {
+			gj := randGraphJ(r, n, p)
+			add(consIn{Fam: "MulticodeDecodeOf", G: gj})
+			add(consIn{Fam: "Graph6DecodeOf", G: gj})
+			add(consIn{Fam: "Sparse6DecodeOf", G: gj})
+			add(consIn{Fam: "NewSparse", G: gj})
+			if n <= 65 {
+				add(consIn{Fam: "ComplementDense", G: gj, Rep: "sparse"})
+			}
+		}
+	}
 	add(consIn{Fam: "NewDense", P: []int{3}, M: []int{1, 0}}) // wrong length: documented refusal
 	for _, n := range []int{0, 1, 5, 9} {
 		for _, pct := range []int{0, 30, 100} {
